@@ -12,10 +12,15 @@ Definition kz (g : Z) : nat := if (g <? 1000)%Z then Z.to_nat (g mod 3) else 0%n
 Definition enc_ind (base : nat) (i : indiv Z Z) : list Z :=
   [(if Nat.leb base (oid Z Z i) then 1 else 0)%Z; genome Z Z i;
    (match fitness Z Z i with None => -1 | Some f => f end)%Z; (if fit_set Z Z i then 1 else 0)%Z].
-Definition runner (c : bool * bool * nat * list (Z * option Z * bool)) : list Z :=
-  let '(multi, red, c0, p) := c in
+Definition faultz (on : bool) (g : Z) : bool := on && (g mod 1000 =? 13)%Z.
+Definition runner (c : bool * bool * nat * list (Z * option Z * bool) * bool) : list Z :=
+  let '(multi, red, c0, p, fault) := c in
   let pop := (fix mk (l : list (Z * option Z * bool)) (n : nat) :=
                 match l with [] => [] | (g, f, s) :: r => mkIndiv Z Z n g f s :: mk r (S n) end) p 0%nat in
+  if (if multi then match multiprocess_eval_p Z Z fitz optz kz (faultz fault) red [] 5000%nat (mkCounter c0 0) pop with None => true | _ => false end
+      else match serial_eval_p Z Z fitz optz kz (faultz fault) red (mkCounter c0 0) pop with None => true | _ => false end)
+  then [(-99)%Z]        (* the phase raises *)
+  else
   if multi then
     let '(c', pop', wg) := multiprocess_eval Z Z fitz optz kz red [] 5000%nat (mkCounter c0 0) pop in
     Z.of_nat (count c') :: Z.of_nat wg :: flat_map (enc_ind 5000%nat) pop'
@@ -25,29 +30,33 @@ Definition runner (c : bool * bool * nat * list (Z * option Z * bool)) : list Z 
 RUNNER = "runner"
 
 
-def gen_case(rng, multi=None):
+def gen_case(rng, multi=None, fault=None):
     n = rng.randint(0, 9)
     pop = []
+    fault = (rng.random() < 0.25) if fault is None else fault
     for _ in range(n):
         g = rng.randint(0, 40) + (1000 if rng.random() < 0.3 else 0)
+        if fault and rng.random() < 0.2:
+            g = 13 + (1000 if rng.random() < 0.3 else 0)       # the fitness function raises on this genome
         evaluated = rng.random() < 0.45
         # a stored fitness of -7 stands for NaN (a failed evaluation that was nevertheless recorded): marked is marked
         pop.append([g, ((rng.randint(0, 99) if rng.random() < 0.8 else -7) if evaluated else None), evaluated])
     return dict(multi=(rng.random() < 0.35) if multi is None else multi, red=rng.random() < 0.3,
-                c0=rng.randint(0, 50), pop=pop, procs=rng.choice([1, 2, 3]), wrapped=True)
+                c0=rng.randint(0, 50), pop=pop, procs=rng.choice([1, 2, 3]), wrapped=True, fault=fault)
 
 
 def coq_case(c):
-    return "(%s, %s, %d%%nat, %s)" % (vlib.cbool(c["multi"]), vlib.cbool(c["red"]), c["c0"],
-                                      vlib.clist(c["pop"], lambda t: "(%s, %s, %s)" % (vlib.cz(t[0]), vlib.copt(t[1]), vlib.cbool(t[2]))))
+    return "(%s, %s, %d%%nat, %s, %s)" % (vlib.cbool(c["multi"]), vlib.cbool(c["red"]), c["c0"],
+                                          vlib.clist(c["pop"], lambda t: "(%s, %s, %s)" % (vlib.cz(t[0]), vlib.copt(t[1]), vlib.cbool(t[2]))),
+                                          vlib.cbool(bool(c.get("fault"))))
 
 
 def run_phase_case(c):
     """runs one evaluation phase on the real classes; returns (out, viol)"""
     from bingo.evaluation.evaluation import Evaluation
     from bingo.local_optimizers.local_opt_fitness import LocalOptFitnessFunction
-    from props.c19_fit import ToyChrom, CountingFitness, ToyOptimizer, REAL_CALLS
-    base = CountingFitness()
+    from props.c19_fit import ToyChrom, CountingFitness, FaultyFitness, ToyOptimizer, REAL_CALLS
+    base = FaultyFitness() if c.get("fault") else CountingFitness()
     base.eval_count = c["c0"]
     fn = LocalOptFitnessFunction(base, ToyOptimizer(base))
     pop = []
@@ -59,7 +68,18 @@ def run_phase_case(c):
     before = list(pop)
     REAL_CALLS.value = 0
     ev = Evaluation(fn, redundant=c["red"], multiprocess=(c["procs"] if c["multi"] else False))
-    ev(pop)
+    must_raise = bool(c.get("fault")) and any((c["red"] or not s) and g % 1000 == 13 for (g, f, s) in c["pop"])
+    try:
+        ev(pop)
+    except ZeroDivisionError:
+        if must_raise:
+            return [-99], []
+        return [-99], ["the evaluation phase raised although no individual that was due makes the fitness function raise"]
+    if must_raise:
+        left = [j for j, ((g, f, s), ind) in enumerate(zip(c["pop"], pop)) if (c["red"] or not s) and not ind.fit_set]
+        return [0], ["the fitness function raised for a due individual, yet the evaluation phase (%s) returned normally; slots %r that "
+                     "were due are still unevaluated; eval_count grew by %d"
+                     % ("%d worker processes" % c["procs"] if c["multi"] else "serial", left, ev.eval_count - c["c0"])]
     real = REAL_CALLS.value
     viol = []
     out = [ev.eval_count, real if c["multi"] else ev.eval_count - c["c0"]]
@@ -249,7 +269,8 @@ def check(rep, proof, pid="C19"):
         distinct_nontrivial=len({repr(c) for c in cases if len(c["pop"]) >= 2}),
         rule="one real Evaluation.__call__ per case on 0-9 individuals with mixed evaluated flags, redundant on/off, serial or a "
              "pool of 1-3 worker processes, through the real LocalOptFitnessFunction wrapping a counting base function and a toy "
-             "optimizer that invokes it 0-2 times; reported count compared with a cross-process independent counter and with "
+             "optimizer that invokes it 0-2 times; a quarter of the cases use a base function that raises for some genomes (the phase "
+             "must then raise, serially and from the workers, and never return with a due individual unevaluated); reported count compared with a cross-process independent counter and with "
              "Model/EvalPhase.v; plus real Island/SerialArchipelago histories (ExplicitRegression, scipy local optimisation, "
              "2 workers, RandomSubsetEvaluation) checked after every evolve; non-trivial = at least two individuals",
         samples=[cases[0]] + hist["samples"][:2],
@@ -257,7 +278,10 @@ def check(rep, proof, pid="C19"):
         history=dict(runs=hist["runs"], count_checks=hist["checks"], subset_phase_checks=hist.get("subset_phase_checks", 0),
                      violations=len(hist["viol"])),
         oracle_violations=len(oracle_bad) + len(hist["viol"]),
-        distribution=dict(multiprocess=sum(c["multi"] for c in cases), redundant=sum(c["red"] for c in cases)),
+        distribution=dict(multiprocess=sum(c["multi"] for c in cases), redundant=sum(c["red"] for c in cases),
+                          raising_fitness_function=sum(bool(c.get("fault")) for c in cases),
+                          phases_that_raised=sum(r["out"] == [-99] for r in results),
+                          phases_that_raised_in_worker_processes=sum(r["out"] == [-99] and c["multi"] for c, r in zip(cases, results))),
     )
     rep.assumptions += [
         "pickling an individual / a fitness function for a worker = an independent copy (fresh object) with the same fields",
